@@ -345,6 +345,20 @@ theorem tcp_stream_table_partial (t : TcpTable) (K L G X : Addr) (hk : K ≠ L)
   simp only [decide_eq_true_eq] at this
   simp [this]
 
+/-- **nudge_needs_known_peer** (holds since the `fix:` commit "nudge_passive_tcp_nomination honours only a TCP
+connection whose peer is a remote candidate"; before, a bare TCP connect followed by the nudge completed
+nomination and published the stranger's connection): whatever connections strangers have opened — the table is
+written on accept, before authentication — the nudge changes nothing unless some registered connection's peer is
+a remote candidate; and connections accepted from addresses that are no remote candidate never change its result. -/
+theorem nudge_needs_known_peer (s : St) (t : TcpTable)
+    (h : ∀ e ∈ t, s.remotes.any (fun c => c.address = e.2) = false) : nudge s t = s := by
+  unfold nudge
+  split
+  · rfl
+  · have : t.find? (fun e => s.remotes.any (fun c => c.address = e.2)) = none :=
+      List.find?_eq_none.mpr (fun e he => by simp [h e he])
+    rw [this]
+
 /-- the credential check is sound: it accepts only datagrams whose FIRST USERNAME is `<ufrag>:…` and whose FIRST
 MESSAGE-INTEGRITY is the HMAC under the local password (`Credentials`; see its comment for the one respect
 in which this is weaker than RFC 8445 §7.3: USERNAME need not precede MESSAGE-INTEGRITY) -/
